@@ -69,8 +69,8 @@ package participle
 //@ func (*parseContext).Stop [C13 C01 C02]
 //@   check-overflow
 //@   requires branch != nil && p != branch
-//@   requires 0 <= p.cursor && p.cursor <= 9223372036854775807 && 0 <= branch.cursor && branch.cursor <= 9223372036854775807
-//@   requires -9223372036854775808 <= p.lookahead && p.lookahead <= 9223372036854775807
+//@   requires @assumed 0 <= p.cursor && p.cursor <= 9223372036854775807 && 0 <= branch.cursor && branch.cursor <= 9223372036854775807
+//@   requires @assumed -9223372036854775808 <= p.lookahead && p.lookahead <= 9223372036854775807
 //@   modifies p.apply, p.PeekingLexer, p.deepestError, p.deepestErrorDepth
 //@   ensures @threshold result == (p.lookahead >= 0 && branch.cursor - old(p.cursor) > p.lookahead)
 //@   ensures result ==> p.PeekingLexer == branch.PeekingLexer && len(p.apply) == len(old(p.apply)) + len(branch.apply) && (p.apply == old(p.apply) || fresh(p.apply))
@@ -131,8 +131,8 @@ package participle
 //@ interface node.Parse
 //@   params self, ctx, parent
 //@   requires ctx != nil && pcInv(ctx) && wf(self)
-//@   modifies ctx.PeekingLexer.Checkpoint, ctx.apply, ctx.deepestError, ctx.deepestErrorDepth, ctx.depth
-//@   ensures pcInv(ctx)
+//@   modifies ctx.PeekingLexer, ctx.apply, ctx.deepestError, ctx.deepestErrorDepth, ctx.depth
+//@   ensures pcInv(ctx) && ctx.tokens == old(ctx.tokens) && ctx.elide == old(ctx.elide)
 //@   ensures ctx.rawCursor >= old(ctx.rawCursor) && ctx.cursor >= old(ctx.cursor)
 //@   ensures result1 == nil && len(result0) == 0 ==> ctx.Checkpoint == old(ctx.Checkpoint) && len(ctx.apply) == len(old(ctx.apply))
 //@   ensures ctx.apply == old(ctx.apply) || fresh(ctx.apply)
@@ -188,3 +188,49 @@ package participle
 //@   before call (*parseContext).Defer#1: assert forall(k, len(old(ctx.apply)), len(ctx.apply), ctx.apply[k] != nil && ctx.apply[k].strct == parent)
 //@   before call (*parseContext).Defer#1: assert strct == parent && field == c.field && fieldValue == v && len(v) >= 0
 //@   before call (*parseContext).Defer#1: assert tokens == ctx.tokens[start:ctx.rawCursor] [C11 C01]
+
+// setField writes the captured values into the struct through reflection (C17); it does not touch the
+// parse context. Its own obligations are under "conform"/"setField" below.
+//@ func setField
+//@   trusted
+
+// Apply(from): applies exactly the captures deferred since the list held `from` entries, in order, and drops
+// them; earlier entries (deferred by enclosing productions) are kept untouched.
+//@ func (*parseContext).Apply [C02 C17 C01]
+//@   requires 0 <= from && from <= len(p.apply) && forall(k, from, len(p.apply), p.apply[k] != nil)
+//@   modifies p.apply
+//@   ensures len(p.apply) == from && forall(k, 0, from, p.apply[k] == old(p.apply[k])) && &p.apply[0] == &old(p.apply)[0]
+//@   loop 1 invariant -1 <= rangeindex && rangeindex < len(pending) && len(p.apply) == from && &p.apply[0] == &old(p.apply)[0] && pending == old(p.apply)[from:]
+//@   loop 1 decreases len(pending) - rangeindex
+//@   before call participle.setField#1: assert apply == old(p.apply)[from + rangeindex + 1] [C02 C01]
+
+// A sequence: children in list order on the same context; a first child that does not match leaves
+// everything untouched; a later one that does not match is an UnexpectedTokenError at Peek().
+//@ lemma seqAcyclic(s *sequence, n *sequence)
+//@   axiom
+//@   requires n != nil
+//@   ensures n.next != s
+//@ func (*sequence).Parse [C01 C02 C06 C13]
+//@   implements node.Parse
+//@   use wfSequence(n) at loop 1
+//@   use seqAcyclic(s, n) at loop 1
+//@   loop 1 invariant ctx.tokens == old(ctx.tokens) && ctx.elide == old(ctx.elide)
+//@   loop 1 invariant pcInv(ctx) && ctx.rawCursor >= old(ctx.rawCursor) && ctx.cursor >= old(ctx.cursor) && (n != nil ==> wf(iface(n)))
+//@   loop 1 invariant (ctx.apply == old(ctx.apply) || fresh(ctx.apply)) && len(ctx.apply) >= len(old(ctx.apply))
+//@   loop 1 invariant forall(k, 0, len(old(ctx.apply)), ctx.apply[k] == old(ctx.apply[k]))
+//@   loop 1 invariant forall(k, len(old(ctx.apply)), len(ctx.apply), ctx.apply[k] != nil && ctx.apply[k].strct == parent)
+//@   loop 1 invariant len(out) == 0 ==> ctx.Checkpoint == old(ctx.Checkpoint) && len(ctx.apply) == len(old(ctx.apply))
+//@   loop 1 invariant n == s ==> len(out) == 0
+//@   loop 1 nonterminating-ok
+
+// Ordered choice: alternatives in index order, each on a fresh branch; the first that matches is adopted;
+// a failing one commits the whole choice only through Stop.
+//@ func (*disjunction).Parse [C01 C02 C06 C13]
+//@   implements node.Parse
+//@   use wfDisjunction(d) at entry
+//@   allow-panic 1 "documented grammar-bug panic (an alternative matched without consuming); excluded by C06's premise"
+//@   loop 1 invariant -1 <= rangeindex && rangeindex < len(d.nodes) && pcInv(ctx)
+//@   loop 1 invariant ctx.PeekingLexer == old(ctx.PeekingLexer) && ctx.apply == old(ctx.apply)
+//@   loop 1 invariant firstError == nil || implements(firstError, Error) || uf("user_error", "Bool", firstError)
+//@   loop 1 decreases len(d.nodes) - rangeindex
+//@   ensures err == nil && out == nil ==> ctx.PeekingLexer == old(ctx.PeekingLexer) && ctx.apply == old(ctx.apply)
